@@ -161,11 +161,25 @@ pub async fn history(mut sim: Sim, o: Opts) -> Result<Value, String> {
                         Request::new(Bytes::from_static(b"x")).with_route("/after-disconnect"), nonce).await;
                 }
             }
-            45..=49 if alive(&sim, a) => {
+            45..=47 if alive(&sim, a) => {
                 let nonce = sim.nonce();
                 let net = sim.net(a).clone();
                 let _ = sim::rpc(&sim.run, &net, a as i64, sim.peer_id(b),
                     Request::new(Bytes::from_static(b"y")).with_route("/any"), nonce).await;
+            }
+            48..=49 if alive(&sim, a) => {
+                // a slow request stays in flight while the history goes on: connections end
+                // (disconnect, replacement, partition, shutdown) under running handlers
+                let nonce = sim.nonce();
+                let net = sim.net(a).clone();
+                let run = sim.run.clone();
+                let to = sim.peer_id(b);
+                let delay = [50u64, 1_500, 6_000][sim.rng.gen_range(0..3)];
+                pending.push(tokio::spawn(async move {
+                    let _ = sim::rpc(&run, &net, a as i64, to,
+                        Request::new(Bytes::from_static(b"slow")).with_route("/slow")
+                            .with_header("delay-ms", delay.to_string()), nonce).await;
+                }));
             }
             50..=57 if alive(&sim, a) => {
                 let _ = sim.subscribe(a);
